@@ -91,6 +91,40 @@ def interior_model(assertions, eps, extra=None, timeout=3000):
     return None
 
 
+def greedy_interior_model(assertions, extra=None, eps_list=("1", "1/100"), per_query_ms=400, budget_s=8.0):
+    """When no uniform margin is feasible (e.g. an opacity product that must lie below 0.0005):
+    keep every assertion, then strengthen them one at a time by the largest margin that stays
+    satisfiable.  Costs one small query per assertion; used only for witnesses of refuted checks."""
+    import time as _t
+
+    s = z3.Solver()
+    s.set("timeout", 3000)
+    for a in assertions:
+        s.add(a)
+    if extra is not None:
+        s.add(extra)
+    if s.check() != z3.sat:
+        return None
+    best = s.model()
+    s.set("timeout", per_query_ms)
+    t0 = _t.time()
+    todo = list(assertions) + ([extra] if extra is not None else [])
+    for a in todo:
+        if _t.time() - t0 > budget_s:
+            break
+        for eps in eps_list:
+            f = strengthen(a, z3.RealVal(eps))
+            if f is a or z3.eq(f, a):
+                break
+            s.push()
+            s.add(f)
+            if s.check() == z3.sat:
+                best = s.model()
+                break  # keep it (never popped)
+            s.pop()
+    return best
+
+
 class _ModelAdapter:
     """model living in another z3 context; evaluates main-context terms"""
 
@@ -483,6 +517,13 @@ class Ctx:
                 if rm is not None:
                     model = rm
                     break
+            else:
+                try:
+                    rm = greedy_interior_model(self.assertions, extra=extra_)
+                except z3.Z3Exception:
+                    rm = None
+                if rm is not None:
+                    model = rm
         inputs = self.model_inputs(model)
         self.failures.append(
             Failure(
